@@ -489,12 +489,7 @@ func handleMOTD(c *Client, e Event) {
 // a given channel. Optionally also obtains ident/host values, as well as
 // permissions for each user, depending on what capabilities are enabled.
 func handleNAMES(c *Client, e Event) {
-	if len(e.Params) < 1 {
-		return
-	}
-
-	channel := c.state.lookupChannel(e.Params[2])
-	if channel == nil {
+	if len(e.Params) < 3 {
 		return
 	}
 
@@ -505,6 +500,12 @@ func handleNAMES(c *Client, e Event) {
 	var s *Source
 
 	c.state.Lock()
+	channel := c.state.lookupChannel(e.Params[2])
+	if channel == nil {
+		c.state.Unlock()
+		return
+	}
+
 	for i := 0; i < len(parts); i++ {
 		modes, nick, ok = parseUserPrefix(parts[i])
 		if !ok {
